@@ -273,7 +273,9 @@ pub fn watch_register(prop: &str, violation: bool) -> std::sync::Arc<WatchSlot> 
 }
 
 pub fn case_timeout_s() -> u64 {
-    std::env::var("VERIF_CASE_TIMEOUT").ok().and_then(|x| x.parse().ok()).unwrap_or(120)
+    // cases take milliseconds; ten minutes leaves room for a machine that is heavily oversubscribed (a soak that
+    // shared the box with ten compiling sub-agents once stalled a 0.2 s case for more than two minutes)
+    std::env::var("VERIF_CASE_TIMEOUT").ok().and_then(|x| x.parse().ok()).unwrap_or(600)
 }
 
 pub fn start_watchdog() {
